@@ -4,7 +4,9 @@ The family applies here through transcription: the textbook definitions are writ
 TLA+ over integers and exact rationals - algebra/ConfusionRates.tla (27 confusion-matrix
 metrics, binary / micro / macro), algebra/RankMetrics.tla (15 top-k retrieval metrics per
 example plus the hit positions for DCG / NDCG), algebra/Stats.tla (count / total / mean /
-variance with NaN skipping, histogram bins, min / max) - TLC checks the laws that tie the
+variance with NaN skipping, histogram bins, min / max), algebra/PairStats.tla (Pearson / reflective
+r, Tjur's D, symmetric prediction difference, calibration histogram, inputs of the cross entropies),
+algebra/TextFreq.tla (top-k word n-grams, pattern frequency), algebra/Signals.tla - TLC checks the laws that tie the
 definitions together (ranges, complements, harmonic mean, class symmetry, monotonicity in k,
 variance >= 0, split invariance) over every input class of the bounded universe and emits
 the expected value of every metric; every emitted case becomes one implementation test, in
@@ -288,6 +290,18 @@ def replay_stats(chk, h, consts):
     if not close(v, w):
       chk.violation(f'stats:function-api:{nm}', f'[{desc}] {nm}(batch) = {v}, definition gives {w}', ctx)
       return
+  sd = fn_api.stddev(np.asarray(flat))
+  if not close(sd, math.sqrt(want_var) if cnt else float('nan')):
+    chk.violation('stats:function-api:stddev', f'[{desc}] stddev(batch) = {sd}, definition gives sqrt({want_var})', ctx)
+    return
+  for cls, attr, w in ((agg.Var, 'var', want_var), (agg.Mean, 'mean', want_mean)):
+    a = cls()
+    for b in batches:
+      a.add(np.asarray(b))
+    r = a.result()
+    if not close(r if isinstance(r, (int, float, np.floating, np.ndarray)) else getattr(r, attr), w):
+      chk.violation(f'stats:{cls.__name__}:result', f'[{desc}] {cls.__name__}().result() = {a.result()}, definition gives {w}', ctx)
+      return
   # histogram (NaN-free values only: np.histogram rejects NaN ranges silently otherwise)
   clean = [[v for v in b if not math.isnan(v)] for b in batches]
   hist = agg.Histogram(range=(consts['Lo'], consts['Hi']), bins=consts['Bins'])
@@ -415,6 +429,100 @@ def replay_pairs(chk, h, consts):
         judge('categorical-cross-entropy', cross_entropy.categorical_cross_entropy(np.asarray(flat_y), np.asarray(flat_x)), want)
       except Exception as e:  # pylint: disable=broad-exception-caught
         chk.violation(f'pairs:categorical-cross-entropy:exception:{type(e).__name__}', f'[{desc}] {e!r}', ctx)
+
+
+_LETTERS = 'abcdefg'
+
+
+def _render_words(t, salt):
+  """a text of TextFreq.tla as words: one letter per symbol, with noise the documented cleaning removes (case, digits,
+  punctuation, repeated spaces)"""
+  out = []
+  for i, sym in enumerate(t):
+    w = _LETTERS[sym - 1]
+    v = (i + salt) % 5
+    out.append(w.upper() if v == 1 else w + '1' if v == 2 else '!' + w if v == 3 else w)
+  return ('  ' if salt % 2 else ' ').join(out) + (' 7' if salt % 3 == 0 and t else '')
+
+
+def replay_text(chk, h, consts):
+  from ml_metrics._src.aggregates import text as agg
+  try:
+    from ml_metrics._src.metrics import text as fn_api      # needs a telemetry module that is not part of the open-source tree
+  except ImportError:
+    fn_api = None
+  nt = h['nt']
+  texts = [_render_words(t, j) for j, t in enumerate(h['texts'])]
+  plain = [''.join(_LETTERS[s - 1] for s in t) for t in h['texts']]
+  ctx = dict(kind='text-frequency', texts=h['texts'])
+  name_of = lambda g, sep: sep.join(_LETTERS[s - 1] for s in g)
+
+  def same(got, want):
+    return len(got) == len(want) and all(g[0] == w[0] and close(g[1], w[1]) for g, w in zip(got, want))
+
+  def splits(items):
+    yield 'one-batch', [items]
+    if len(items) > 1:
+      yield 'per-text', [[x] for x in items]
+
+  for n in sorted(consts['Ns']):
+    for mode, key, kw in (('all', 'all', dict()), ('distinct', 'distinct', dict(count_duplicate=False)),
+                          ('first', 'first', dict(use_first_ngram_only=True)), ('first', 'first', dict(use_first_ngram_only=True, count_duplicate=False))):
+      ranked = [(name_of(g, ' '), c / nt) for g, c in h[key][n - 1]]
+      for k in (1, 2, 6):
+        want = ranked[:k]
+        desc = f'texts={texts} n={n} k={k} {kw or ""}'
+        try:
+          for how, batches in splits(texts):
+            acc = agg.TopKWordNGrams(k=k, n=n, **kw)
+            for b in batches:
+              acc.add(b)
+            if not same(acc.result(), want):
+              chk.violation(f'text:ngrams:{mode}', f'[{desc}] {how}: {acc.result()}, definition gives {want}', ctx)
+              break
+            merged = agg.TopKWordNGrams(k=k, n=n, **kw)
+            for b in batches:
+              o = agg.TopKWordNGrams(k=k, n=n, **kw)
+              o.add(b)
+              merged.merge(o)
+            if not same(merged.result(), want):
+              chk.violation(f'text:ngrams:{mode}:merge', f'[{desc}] {how}: {merged.result()}, definition gives {want}', ctx)
+              break
+          got = fn_api.topk_word_ngrams(texts, k=k, n=n, **kw) if fn_api else want
+          if not same(got, want):
+            chk.violation(f'text:ngrams:{mode}:function-api', f'[{desc}] {got}, definition gives {want}', ctx)
+        except Exception as e:  # pylint: disable=broad-exception-caught
+          chk.violation(f'text:ngrams:exception:{type(e).__name__}', f'[{desc}] {e!r}', ctx)
+  pats = [name_of(g, '') for g, _ in h['pat_all']]
+  pats = sorted(pats, key=lambda p: (len(p) % 2, p[::-1]))          # any order of the configured patterns
+  for mode, key, kw in (('all', 'pat_all', dict(count_duplicate=True)), ('distinct', 'pat_distinct', dict(count_duplicate=False))):
+    want = [(name_of(g, ''), c / nt) for g, c in h[key]]
+    desc = f'texts={plain} patterns={pats} {kw}'
+    try:
+      for how, batches in splits(plain):
+        acc = agg.PatternFrequency(patterns=pats, **kw)
+        for b in batches:
+          acc.add(b)
+        if not same(acc.result(), want):
+          chk.violation(f'text:patterns:{mode}', f'[{desc}] {how}: {acc.result()}, definition gives {want}', ctx)
+          break
+      got = fn_api.pattern_frequency(plain, patterns=pats, **kw) if fn_api else want
+      if not same(got, want):
+        chk.violation(f'text:patterns:{mode}:function-api', f'[{desc}] {got}, definition gives {want}', ctx)
+    except Exception as e:  # pylint: disable=broad-exception-caught
+      chk.violation(f'text:patterns:exception:{type(e).__name__}', f'[{desc}] {e!r}', ctx)
+  # average number of alphabetical characters: each symbol is one letter, the noise is not alphabetical
+  lens = [len(t) for t in h['texts']]
+  mean = sum(lens) / nt
+  var = sum((v - mean) ** 2 for v in lens) / nt
+  if fn_api is None:
+    return
+  try:
+    r = fn_api.avg_alphabetical_char_count(texts)
+    if not (close(r.mean, mean) and close(r.var, var) and r.count == nt):
+      chk.violation('text:avg-alphabetical-char-count', f'[texts={texts}] mean/var/count {r.mean}/{r.var}/{r.count}, definition gives {mean}/{var}/{nt}', ctx)
+  except Exception as e:  # pylint: disable=broad-exception-caught
+    chk.violation(f'text:avg-alphabetical-char-count:exception:{type(e).__name__}', f'[texts={texts}] {e!r}', ctx)
 
 
 def replay_signals(chk, h):
@@ -565,6 +673,24 @@ def body(chk):
       replay_pairs(chk, h, pc)
       chk.replayed()
     chk.count(f'pair_streams[{label}]', len(hs))
+  # 3c. text-frequency metrics
+  tc = dict(NSym=2, MaxTexts=2, MaxLen=3, Ns={1, 2}, MaxPat=2)
+  tlaws = ['TotalOrder', 'DistinctAtMostAll', 'GramsAccountForPositions', 'FirstOnePerText', 'RankedIsSorted']
+  mc = tlc.run('algebra', 'TextFreq', tlc.cfg_text(constants=tc, invariants=tlaws, deadlock=False), timeout=1800)
+  chk.add_tlc(mc, 'TextFreq/MC')
+  if not mc.ok:
+    chk.machinery_failure(f'TextFreq.tla violates {mc.error_name}')
+  gen = tlc.run('algebra', 'TextFreq', tlc.cfg_text(constants=tc, invariants=['Emit'], deadlock=False), workers=1, timeout=1800)
+  if not gen.ok:
+    chk.machinery_failure(f'TextFreq export failed: {gen.error_name}')
+  hs = list(gen.histories)
+  sim = tlc.run('algebra', 'TextFreq', tlc.cfg_text(constants=dict(tc, NSym=3, MaxTexts=4, MaxLen=4), invariants=['Emit'], deadlock=False),
+                workers=1, simulate=f'num={400 if thorough else 60}', depth=5, seed=chk.seed + 6, timeout=1800)
+  hs += sim.histories
+  for h in hs:
+    replay_text(chk, h, tc)
+    chk.replayed()
+  chk.count('text_sets', len(hs))
   # 4. per-example signals
   gc = dict(NClasses=3, MaxScore=4, Thresholds={0, 2, 4})
   glaws = ['TopkMonotone', 'TopkAllAtN', 'TopkExactlyK', 'FlipPartition']
@@ -582,6 +708,8 @@ def body(chk):
   chk.add_samples([dict(tp=1, fp=2, tn=0, fn=1)])
   chk.assumptions += ['exact rationals on the specification side, float comparison with relative tolerance 1e-9 on the implementation side',
                       'square roots and log2 discounts are applied by the harness to the emitted rationals / hit positions',
+                      'metrics/text.py (the one-shot text functions) cannot be imported here (it needs ml_metrics.google.tools.telemetry, absent from the tree): '
+                      'the text-frequency definitions are decided on the accumulators of aggregates/text.py',
                       'the logarithms of the cross entropies are taken by the replayer (math.log, example by example) over the spec-enumerated inputs',
                       'the prevalence threshold is compared only where tpr and fpr are both defined']
 
